@@ -32,8 +32,17 @@ inductive Op
   | tlsStat (k : Nat)              -- inits*100 + drops of key `k` in this iteration (harness counters)
   | tlsObs (k : Nat)               -- what the destructor of key `k` observed (`tlsdtor=2`)
   | lazyStat (z : Nat)             -- number of live instances of lazy static `z` (inits − drops, whole process)
-  | blockOn (f : Nat) (mode : Nat) -- `future::block_on` of scripted future `f` (0: waker slot, 1: AtomicWaker)
+  /-- `future::block_on` of scripted future `f`.  mode 0: waker slot, ready iff `x_f == 1` (Acquire);
+  1: `AtomicWaker`, same test, the registration is taken back when `block_on` returns; 2: waker slot, ready iff
+  `x_f == 2` read Relaxed (two wakers each add 1: what they publish reaches the future only through the wake);
+  3: like 1 but the registration stays in the `AtomicWaker` (shared state that outlives the call);
+  4: like 3 but `block_on(poll_once(future))`: one poll, returns 0 if the future is still pending -/
+  | blockOn (f : Nat) (mode : Nat)
   | wake (f : Nat) | wakeRef (f : Nat) | dropWaker (f : Nat) | awWake (f : Nat)
+  | wakeQ (f : Nat)                -- `wake_by_ref` on the waker in the slot, without touching the flag
+  | awTake (f : Nat)               -- `drop(atomic_waker.take_waker())`
+  | wClone (f : Nat)               -- keep a clone of the waker registered in the slot (1) if there is one (else 0)
+  | wakeH (f : Nat)                -- `wake()` the clone this thread keeps (nothing if it keeps none)
   | stop | explore | skip | panic
 deriving DecidableEq, Repr, Inhabited
 
@@ -184,6 +193,10 @@ def parseOp (toks : List String) : Option Op :=
   | ["wakeref", f] => do some (.wakeRef (← f.toNat?))
   | ["dropwaker", f] => do some (.dropWaker (← f.toNat?))
   | ["awwake", f] => do some (.awWake (← f.toNat?))
+  | ["wakeq", f] => do some (.wakeQ (← f.toNat?))
+  | ["awtake", f] => do some (.awTake (← f.toNat?))
+  | ["wclone", f] => do some (.wClone (← f.toNat?))
+  | ["wakeh", f] => do some (.wakeH (← f.toNat?))
   | ["stop"] => some .stop
   | ["explore"] => some .explore
   | ["skip"] => some .skip
